@@ -455,6 +455,7 @@ type violation struct {
 	sig, text string
 	step      int
 	bg        bool
+	cont      bool // a read-only step returned something else: the tree is not affected, the behaviour goes on
 }
 
 type snapH struct {
@@ -738,7 +739,9 @@ func (r *run) exec(si int) *violation {
 			} else if r.foreign(*exp, got, nil) {
 				sig = name + ":got-value-of-another-key:expected-" + clsOf(*exp)
 			}
-			return viol(sig, fmt.Sprintf("reader %d %+v on snapshot ts %d, call %+v: expected %+v, got %+v", st.Rd, rh.spec, r.snaps[rh.snap].ts, st.Call, *exp, got))
+			v := viol(sig, fmt.Sprintf("reader %d %+v on snapshot ts %d, call %+v: expected %+v, got %+v", st.Rd, rh.spec, r.snaps[rh.snap].ts, st.Call, *exp, got))
+			v.cont = true
+			return v
 		}
 	case "rreset":
 		rh := r.readers[st.Rd]
@@ -797,7 +800,9 @@ func (r *run) exec(si int) *violation {
 			if r.foreign(*exp, got, askKey) {
 				sig = fmt.Sprintf("%s:got-value-of-another-key:expected-%s:%s", name, clsOf(*exp), recv)
 			}
-			return viol(sig, fmt.Sprintf("%s.%s %s: expected %+v, got %+v", recv, name, describe(st), *exp, got))
+			v := viol(sig, fmt.Sprintf("%s.%s %s: expected %+v, got %+v", recv, name, describe(st), *exp, got))
+			v.cont = true
+			return v
 		}
 	case "flush":
 		if _, _, err := r.t.FlushWith(float32(st.Cleanup), st.Synced); err != nil {
@@ -851,7 +856,13 @@ func (r *run) exec(si int) *violation {
 		vh.Fatalf("unknown op %q", st.Op)
 	}
 
-	// after every step: the whole tree (all keys, all versions, ts) against the abstract state ...
+	return r.afterStep(si, stateChecked)
+}
+
+// after every step: the whole tree (all keys, all versions, ts) against the abstract state ...
+func (r *run) afterStep(si int, stateChecked bool) *violation {
+	st := &r.b.Ops[si]
+	viol := func(sig, text string) *violation { return &violation{sig: sig, text: text, step: si} }
 	if !stateChecked {
 		if v := r.compareTree(si, opName(st)); v != nil {
 			return v
@@ -981,7 +992,7 @@ func (r *run) cleanup() {
 	os.RemoveAll(r.path)
 }
 
-func runOne(b *behaviour, cl *class, seed int64, dir string, bg bool) (*violation, map[string]int, int) {
+func runOne(b *behaviour, cl *class, seed int64, dir string, bg bool) ([]*violation, map[string]int, int) {
 	r := &run{k: newConc(cl, seed, b.Keys), cl: cl, path: dir, snaps: map[int]*snapH{}, readers: map[int]*readerH{}, b: b,
 		cnt: map[string]int{}, bgConc: bg && cl.bg}
 	defer r.cleanup()
@@ -995,22 +1006,30 @@ func runOne(b *behaviour, cl *class, seed int64, dir string, bg bool) (*violatio
 	}
 	r.earlier = []tsState{{0, empty}}
 	steps := 0
+	var vs []*violation
 	for si := range b.Ops {
 		var v *violation
 		panicked, hung, msg := vh.Guard(60*time.Second, func() { v = r.exec(si) })
 		if hung {
-			return &violation{sig: opName(&b.Ops[si]) + ":hangs", text: "no return after 60 s", step: si}, r.cnt, steps
+			return append(vs, &violation{sig: opName(&b.Ops[si]) + ":hangs", text: "no return after 60 s", step: si}), r.cnt, steps
 		}
 		if panicked {
-			return &violation{sig: opName(&b.Ops[si]) + ":panics", text: msg, step: si}, r.cnt, steps
+			return append(vs, &violation{sig: opName(&b.Ops[si]) + ":panics", text: msg, step: si}), r.cnt, steps
 		}
 		steps++
 		if v != nil {
-			return v, r.cnt, steps
+			vs = append(vs, v)
+			if !v.cont {
+				return vs, r.cnt, steps
+			}
+			// the whole-tree and snapshot comparison of this step was skipped by the early return: do it now
+			if v2 := r.afterStep(si, false); v2 != nil {
+				return append(vs, v2), r.cnt, steps
+			}
 		}
 		r.earlier = append(r.earlier, tsState{b.Ops[si].Ts, b.Ops[si].St})
 	}
-	return nil, r.cnt, steps
+	return vs, r.cnt, steps
 }
 
 // an error "key not found" that is not tbtree.ErrKeyNotFound comes out of the opened-files cache of a log
@@ -1170,25 +1189,47 @@ func main() {
 			for j := range jobs {
 				b, cl := bs[j.bi], &cls[j.ci]
 				d := filepath.Join(*dir, fmt.Sprintf("w%d", wi))
-				v, cnt, n := runOne(b, cl, *seed, d, !*nobg)
-				if v != nil && v.sig != "divergence" {
+				vs, cnt, n := runOne(b, cl, *seed, d, !*nobg)
+				var keep []*violation
+				diverged := false
+				for _, v := range vs {
+					if v.sig == "divergence" {
+						diverged = true
+						continue
+					}
 					v.sig = classify(v)
+					keep = append(keep, v)
+				}
+				if len(keep) > 0 {
 					// flake guard: a violation counts only if the same behaviour fails the same way once more (with
 					// concurrent readers the schedule differs from run to run: up to three more attempts)
 					tries := 1
 					if cl.bg && !*nobg {
 						tries = 3
 					}
-					again := false
-					for i := 0; i < tries && !again; i++ {
-						v2, _, _ := runOne(b, cl, *seed, d, !*nobg)
-						again = v2 != nil && classify(v2) == v.sig && (v2.step == v.step || (cl.bg && !*nobg))
+					seen := map[string]bool{}
+					for i := 0; i < tries; i++ {
+						vs2, _, _ := runOne(b, cl, *seed, d, !*nobg)
+						for _, v2 := range vs2 {
+							seen[fmt.Sprintf("%s@%d", classify(v2), v2.step)] = true
+							if cl.bg && !*nobg {
+								seen[classify(v2)+"@any"] = true
+							}
+						}
 					}
-					if !again {
-						res.Count("flaky-violation-not-reproduced", 1)
-						res.DriftNote(fmt.Sprintf("not reproduced on re-run: %s at step %d (%s): %s", v.sig, v.step+1, cl.name, v.text))
-						v = nil
+					var again []*violation
+					for _, v := range keep {
+						if seen[fmt.Sprintf("%s@%d", v.sig, v.step)] || seen[v.sig+"@any"] {
+							again = append(again, v)
+						} else {
+							res.Count("flaky-violation-not-reproduced", 1)
+							res.DriftNote(fmt.Sprintf("not reproduced on re-run: %s at step %d (%s): %s", v.sig, v.step+1, cl.name, v.text))
+						}
 					}
+					keep = again
+				}
+				if diverged {
+					res.Count("stopped-at-divergence:"+cl.name, 1)
 				}
 				mu.Lock()
 				steps += int64(n)
@@ -1201,11 +1242,15 @@ func main() {
 				}
 				res.Count("runs:"+cl.name, 1)
 				res.Count("steps:"+cl.name, n)
-				if v != nil && v.sig != "divergence" {
-					res.Count("stopped-at-violation:"+cl.name, 1)
+				stopped := false
+				for _, v := range keep {
+					stopped = stopped || !v.cont
 					res.Violate(v.sig, fmt.Sprintf("[%s] step %d (%s): %s", cl.name, v.step+1, b.Ops[v.step].Op, v.text),
 						map[string]interface{}{"class": cl.name, "seed": *seed, "origin": b.Origin, "keys": b.Keys, "failing_step": v.step + 1,
 							"ops": b.Raw[:v.step+1]})
+				}
+				if stopped {
+					res.Count("stopped-at-violation:"+cl.name, 1)
 				}
 			}
 		}(wi)
